@@ -3,6 +3,7 @@ package main
 import (
 	"encoding/json"
 	"fmt"
+	"math"
 
 	"verifharness/internal/gen"
 	"verifharness/internal/real"
@@ -403,6 +404,42 @@ func runC04(c *ctx) {
 			c04Eval(c, c04Case{Dir: "print-parse", Msg: m})
 		}
 	}
+	// the same decimal text under both float widths, in either order, in one item list and across consecutive messages
+	// (what a literal means depends on the item it stands in, not on where the text was seen before)
+	{
+		vals := []float64{0.1, 2.7, 6.02e23, 1e-3, 3.3, 1.1e-10, 123456.789, 0.3}
+		f4 := func(v float64) *ref.Item {
+			return &ref.Item{Kind: ref.F4, Slots: []ref.Slot{{Uint: uint64(math.Float32bits(float32(v)))}}}
+		}
+		f8 := func(v float64) *ref.Item {
+			return &ref.Item{Kind: ref.F8, Slots: []ref.Slot{{Uint: math.Float64bits(v)}}}
+		}
+		var texts []string
+		for _, v := range vals {
+			for _, it := range []*ref.Item{
+				{Kind: ref.L, Children: []*ref.Item{f4(v), f8(v)}},
+				{Kind: ref.L, Children: []*ref.Item{f8(v), f4(v), f8(v)}},
+				{Kind: ref.L, Children: []*ref.Item{{Kind: ref.L, Children: []*ref.Item{f4(v)}}, f8(v)}},
+			} {
+				m := g.Msg(it, false)
+				m.Session = -1
+				c.Class("same-float-text-under-both-widths")
+				c04Eval(c, c04Case{Dir: "print-parse", Msg: m})
+			}
+			m4, m8 := g.Msg(f4(v), false), g.Msg(f8(v), false)
+			m4.Session, m8.Session = -1, -1
+			texts = append(texts, ref.PrintMsg(m4)+"\n"+ref.PrintMsg(m8)+"\n", ref.PrintMsg(m8)+"\n"+ref.PrintMsg(m4)+"\n"+ref.PrintMsg(m8)+"\n")
+		}
+		for _, t := range texts {
+			c04Eval(c, c04Case{Dir: "fixed-point", Text: t})
+		}
+		// the literal texts have now been seen under F4: every F8 message once more
+		for _, v := range vals {
+			m := g.Msg(f8(v), false)
+			m.Session = -1
+			c04Eval(c, c04Case{Dir: "print-parse", Msg: m})
+		}
+	}
 	// converse: accepted texts with varied literal forms and layouts
 	c.parallel(c.pick(20000, 500000), func(i int, r *rng.R) {
 		g := gen.New(r, expressibleProfile(r, i))
@@ -425,7 +462,7 @@ func runC04(c *ctx) {
 		txt := smltext.Render(toks, lead, gaps, smltext.CaseSpelling(r, toks)).Text
 		c04Eval(c, c04Case{Dir: "fixed-point", Text: txt})
 	})
-	c.Required = []string{"print-parse/ascii=plain", "print-parse/ascii=+quote", "print-parse/ascii=+backslash", "print-parse/ascii=+control", "fixed-point/accepted-text", "every-ascii-character", "deep-nesting", "print-parse/ellipses-numbered-in-order", "ellipsis-before-a-list-with-ellipsis"}
+	c.Required = []string{"print-parse/ascii=plain", "print-parse/ascii=+quote", "print-parse/ascii=+backslash", "print-parse/ascii=+control", "fixed-point/accepted-text", "every-ascii-character", "deep-nesting", "print-parse/ellipses-numbered-in-order", "ellipsis-before-a-list-with-ellipsis", "same-float-text-under-both-widths"}
 }
 
 func replayC04(c *ctx, raw json.RawMessage) {
